@@ -9,6 +9,8 @@ import FordModel.AccessSpec
 import FordModel.Lemmas.Access
 import FordModel.AccessNames
 import FordModel.Lemmas.AccessNames
+import FordModel.AccessImpl
+import FordModel.Lemmas.AccessImpl
 namespace Ford.C04
 open Ford Ford.Access
 
@@ -672,6 +674,121 @@ theorem generic_spec_key_repaired (a b : Str) (hp : '(' ∈ a)
 theorem name_tables_sound :
     declDropChars = [' '] ∧ cutChars = ['(', '*', '['] ∧ splitLevelChars = ['(', ')', '[', ']']
     ∧ splitPairs = [('(', ')'), (')', '('), ('[', ']'), (']', '[')] := by
+  decide
+
+/-! ## Round 5: PROTECTED + access statement, implementations of separate module procedures -/
+
+/-- **The measured transition tables say "a recognised word overwrites".**  The translator runs the real
+    `process_attribs` on an entity of every list that already has the permission `cur` and is named in a statement
+    `w :: name`, for all `cur`, `w` (`itemTrans` for procedures, types, interfaces; `varTrans` for variables).
+    The model's application step (`applyAttrs` on one entry) reproduces every measured triple, and the tables cover
+    every pair (for the item lists: every pair whose `cur` is `public` or `private`).  A guard such as "a protected
+    variable keeps its permission" changes `varTrans` and breaks this theorem. -/
+theorem apply_tables_sound (n : Str) :
+    (∀ x ∈ varTrans, applyAttrs (wordsFor .var) n x.1 [(n, .acc x.2.1)] = x.2.2) ∧
+    (∀ c : Cat, c ≠ .var → ∀ x ∈ itemTrans, applyAttrs (wordsFor c) n x.1 [(n, .acc x.2.1)] = x.2.2) ∧
+    (∀ cur w : Perm, (cur, w) ∈ varTrans.map (fun x => (x.1, x.2.1))) ∧
+    (∀ cur w : Perm, cur ≠ .prot → (cur, w) ∈ itemTrans.map (fun x => (x.1, x.2.1))) := by
+  refine ⟨?_, ?_, ?_, ?_⟩
+  · intro x hx
+    rw [applyAttrs_single]
+    revert x; decide
+  · intro c hc x hx
+    rw [applyAttrs_single]
+    have hw : wordsFor c = applyWords := by simp [wordsFor, hc]
+    rw [hw]
+    revert x; decide
+  · intro cur w; cases cur <;> cases w <;> decide
+  · intro cur w h; cases cur <;> cases w <;> first | decide | exact absurd rfl h
+
+/-- **An explicit `private` in an access statement wins - PROTECTED or not.**  A module variable declared without an
+    access-spec (its declaration may carry `protected` and anything else), named in exactly one access statement,
+    `private :: n`, which is the last attribute statement naming it (`protected :: n`, `save :: n` ... may stand
+    before it): FORD's mechanism reports it `private`, which is Fortran's accessibility - wherever the statements
+    stand relative to the declaration, whatever the module default, in every variant.  (With the attribute
+    statements in the other order the result is the known defect `C04-protected-overrides-private`.) -/
+theorem private_statement_on_protected_variable (v : Variant) (pre post : List Stmt) (ns : List Str) (attrs : List Attr)
+    (n : Str) (ws : List Attr) (hn : n ∈ ns)
+    (hnames : NamesOnce (pre ++ .var ns attrs :: post))
+    (hattr : attrs.filterMap accessWord = [])
+    (hstmt : stmtWords (pre ++ .var ns attrs :: post) n = ws ++ [.acc .priv])
+    (hone : ws.filterMap accessWord = []) :
+    (∃ e ∈ (runUnit v false (pre ++ .var ns attrs :: post)).ents, e.cat = .var ∧ e.name = n ∧ e.perm = .priv) ∧
+    fortranAccess (pre ++ .var ns attrs :: post) attrs n = .priv := by
+  have hst : entriesFor n (stmtEntries (pre ++ .var ns attrs :: post)) = ws ++ [.acc .priv] := hstmt
+  constructor
+  · obtain ⟨e0, he0, hc0, hn0, _⟩ :=
+      mkEnts_declares (lastBare (init false).perm pre) (false || hasContains pre) (.var ns attrs)
+        (by intro h; cases h) (.var, n, attrs) (by simp only [declares, List.mem_map]; exact ⟨n, hn, rfl⟩)
+    simp only at hc0 hn0
+    refine ⟨upd (stmtEntries (pre ++ .var ns attrs :: post))
+      (specUpd v.specLoop (stmtEntries (pre ++ .var ns attrs :: post)) e0), ?_, by simpa using hc0, by simpa using hn0, ?_⟩
+    · rw [runUnit_ents v false _ hnames, entsFrom_append]
+      exact List.mem_map.2 ⟨e0, List.mem_append_right _ (mkEnts_sub_entsFrom _ _ _ post e0 he0), rfl⟩
+    · simp only [upd, specUpd_cat, specUpd_name, specUpd_perm, hc0, hn0, applyAttrs_eq_declPerm, hst]
+      exact declPerm_append_acc _ _ (by decide) ws _
+  · have h1 : explicitOf attrs = none := by rw [explicitOf_eq_head, hattr]; rfl
+    have h2 : stmtAccess (pre ++ .var ns attrs :: post) n = some .priv := by
+      rw [stmtAccess_eq, hst, explicitOf_eq_head, List.filterMap_append, hone]; rfl
+    simp [fortranAccess, h1, h2]
+
+/-- worked instances: `integer, protected :: v` + `private :: v` (either order), and `protected :: v` before
+    `private :: v`: private in FORD's mechanism and in Fortran -/
+example :
+    ((runUnit asIs false [.var [chars! "v"] [.acc .prot], .access (.acc .priv) [chars! "v"]]).ents.map (·.perm) = [.priv]) ∧
+    ((runUnit asIs false [.access (.acc .priv) [chars! "v"], .var [chars! "v"] [.acc .prot]]).ents.map (·.perm) = [.priv]) ∧
+    ((runUnit asIs false [.var [chars! "v"] [], .access (.acc .prot) [chars! "v"], .access (.acc .priv) [chars! "v"]]).ents.map
+      (·.perm) = [.priv]) ∧
+    fortranAccess [.var [chars! "v"] [.acc .prot], .access (.acc .priv) [chars! "v"]] [.acc .prot] (chars! "v") = .priv := by
+  decide
+
+/-- **Implementations in a submodule stay private (short form).**  The body of a separate module procedure written
+    `module procedure f ... end procedure` in a submodule - which cannot contain a bare access statement - is
+    reported private after `correlate`, **whatever the accessibility of the interface body `f` in the ancestor
+    module** (`host`, arbitrary) and whatever else the submodule declares: nothing in a submodule is accessible by
+    use association.  Rests on the measured `implShortTakesIface = false` (does `correlate` hand the interface's
+    permission to the implementation?) and `submoduleInit = private`. -/
+theorem submodule_implementations_private (v : Variant) (g : Bool) (host : List (Str × Perm)) (xs : List XStmt)
+    (h : ∀ r, XStmt.stmt r ∈ xs → ∀ q, keyed g r ≠ .bare q) :
+    ∀ k ∈ (runX v g true host xs).impls, k.perm = .priv := by
+  intro k hk
+  simp only [runX, List.mem_map] at hk
+  obtain ⟨k0, hk0, rfl⟩ := hk
+  have := implsFrom_const g (init true).perm xs h k0 hk0
+  simp only [takeHost, implShortTakesIface, Bool.false_eq_true, if_false]
+  rw [this]; rfl
+
+/-- **Implementations in a submodule stay private (long form)** - and so does every other entity: in a submodule
+    written without access statements and attributes, every entity of its lists, the implementations
+    `module subroutine f` / `module function f` among its procedures, is private after `correlate`, whatever the
+    ancestor module says about `f` (`implLongTakesIface = false`). -/
+theorem submodule_entities_private_after_correlate (v : Variant) (g : Bool) (host : List (Str × Perm)) (stmts : List Stmt)
+    (h : AccessFree stmts) :
+    ∀ e ∈ (runX v g true host ((stmts.map RStmt.plain).map XStmt.stmt)).out.ents, e.perm = .priv := by
+  intro e he
+  simp only [runX, xstmts_map_stmt, runRaw, map_keyed_plain, List.mem_map] at he
+  obtain ⟨e0, he0, rfl⟩ := he
+  have h0 := submodule_entities_private v stmts h e0 he0
+  unfold hostEnt
+  split
+  · simp only [takeHost, implLongTakesIface, Bool.false_eq_true, if_false]; exact h0
+  · exact h0
+
+/-- non-vacuity: interface `f` public in the ancestor module, a submodule with a variable, the long-form
+    implementation `g` and the short-form implementation `f`: all private -/
+example :
+    ((runX asIs false true [(chars! "f", .pub), (chars! "g", .pub)]
+        [.stmt (.plain (.var [chars! "v"] [])), .stmt (.plain .contains), .impl (chars! "f"),
+         .stmt (.plain (.proc false (chars! "g")))]).impls = [⟨chars! "f", .priv⟩]) ∧
+    ((runX asIs false true [(chars! "f", .pub), (chars! "g", .pub)]
+        [.stmt (.plain (.var [chars! "v"] [])), .stmt (.plain .contains), .impl (chars! "f"),
+         .stmt (.plain (.proc false (chars! "g")))]).out.ents.map (fun e => (e.name, e.perm))
+      = [(chars! "v", .priv), (chars! "g", .priv)]) := by
+  decide
+
+/-- the measured truth table of `correlate`'s metadata step: neither form of implementation takes the accessibility
+    of its interface -/
+theorem implementation_tables_sound : implShortTakesIface = false ∧ implLongTakesIface = false := by
   decide
 
 end Ford.C04
